@@ -145,6 +145,9 @@ def worker(spec):
         VARIANTS = {}
         for _name, _body in sorted(ENDINGS.items()):
             _src = ("async def run_nurs_%s(spec_, i, ns):\n"
+                    # (a comprehension variable captured by a nested function: on 3.12+ it is a cell *and* a fast
+                    # local of this function without being an argument)
+                    "    _lc = [(lambda: _cq) for _cq in (1, 2)]\n"
                     "    async with H.opener(ns) as nursery:\n"
                     "        H.start(nursery, spec_, ns)\n" % _name) + "".join("        %s\n" % l for l in _body)
             _ns = {"H": H}
